@@ -44,8 +44,12 @@ def _ref_integral(arr, dim, dimensions):
 
 
 def _geom_integral(img):
+    """Integral of an image through the library's own Geometry.  float32 payloads are handed
+    over as a float64 array so that the observer adds no float32 summation noise of its own."""
     g = darsia.Geometry(**img.shape_metadata())
-    return np.asarray(g.integrate(img), dtype=float)
+    if img.img.dtype == np.float64:
+        return np.asarray(g.integrate(img), dtype=float)
+    return np.asarray(g.integrate(img.img.astype(float)), dtype=float)
 
 
 def _tags(spec, **extra):
